@@ -12,7 +12,7 @@ from xh_support import prepare_cattrs  # noqa: E402
 conv = prepare_cattrs("cl14.core.cattrs_converter")
 S = conv.structure_from_dict
 U = conv.unstructure_to_dict
-from cl14.models import Animal, BarePet, Kit, MixedPet, NullablePet, Pup, Reading  # noqa: E402
+from cl14.models import Animal, Animal2, BarePet, CatV, Kit2, Pup2, Dog2, LegacyPet, Kit, MixedPet, NullablePet, Pup, Reading  # noqa: E402
 from cl14.models import (AllOpt, BankPay, Basic, Card, CardPay, CardRev, Full, Summary, Cat, Circle, Detailed, Dog, Holder, IntOrStr, ListOrBasic, OptA, OptB, Overlap, OverlapRev, Pay, Pet, Shape,  # noqa: E402
                          Square, StrOrBasic)
 
@@ -43,7 +43,7 @@ def _same(a, b):
 
 
 for _t, _d in [(Pay, {"method": "credit-card", "pan": "1"}), (Pay, {"method": "credit_card", "iban": "2"}), (Pet, {"kind": "cat", "name": "n", "lives": 1}), (Pet, {"kind": "dog", "name": "n", "barkVolume": 1}), (Shape, {"r": 1}), (Shape, {"side": 1}),
-               (Overlap, {"id": "a"}), (Overlap, {"id": "a", "extra": 1}), (OverlapRev, {"id": "a"}), (OverlapRev, {"id": "a", "extra": 1}), (NullablePet, {"kind": "dog", "name": "d"}), (Card, {"id": "a"}), (Card, {"id": "a", "displayName": "n", "isActive": True, "class": "c"}), (CardRev, {"id": "a", "class": "c"}), (CardRev, {"id": "a", "displayName": "n"}),
+               (Overlap, {"id": "a"}), (Overlap, {"id": "a", "extra": 1}), (OverlapRev, {"id": "a"}), (OverlapRev, {"id": "a", "extra": 1}), (NullablePet, {"kind": "dog", "name": "d"}), (LegacyPet, {"kind": "dog", "name": "d", "barkVolume": 1}), (LegacyPet, {"kind": "cat", "name": "c"}), (Animal2, {"species": "kitten", "name": "k"}), (Animal2, {"species": "dog", "name": "d"}), (Card, {"id": "a"}), (Card, {"id": "a", "displayName": "n", "isActive": True, "class": "c"}), (CardRev, {"id": "a", "class": "c"}), (CardRev, {"id": "a", "displayName": "n"}),
                (AllOpt, {"x": 1}), (AllOpt, {"y": 1}), (IntOrStr, 1), (IntOrStr, "s"), (StrOrBasic, "s"), (StrOrBasic, {"id": "a"}),
                (ListOrBasic, ["a"]), (ListOrBasic, {"id": "a"}), (Reading, {"code": 1, "flag": True, "opt": "s"}), (Reading, {"code": "s", "flag": 1}), (Reading, {"code": None, "flag": None}),
                (Animal, {"species": "cat", "name": "n"}), (Animal, {"species": "kitten", "name": "n"}), (Animal, {"species": "dog", "name": "n"}),
@@ -78,11 +78,11 @@ def tw_pet_discriminated(which: int, name: str, has_extra: bool, n: int) -> bool
 
 def ob_pet_unmapped_value(name: str, v: int) -> bool:
     """
-    pre: len(name) <= 2 and 0 <= v <= 5
+    pre: len(name) <= 2 and 0 <= v <= 2
     post: _
     """
     try:
-        S({"kind": ["bird", "", "Cat", None, 0, False][v], "name": name}, Pet)
+        S({"kind": ["bird", "", "Cat"][v], "name": name}, Pet)
     except (ValueError, TypeError):
         return True
     return False
@@ -90,13 +90,75 @@ def ob_pet_unmapped_value(name: str, v: int) -> bool:
 
 def tw_pet_unmapped_value(name: str, v: int) -> bool:
     """
-    pre: len(name) <= 2 and 0 <= v <= 5
+    pre: len(name) <= 2 and 0 <= v <= 2
     post: _
     """
     try:
-        S({"kind": ["bird", "", "Cat", None, 0, False][v], "name": name}, Pet)
+        S({"kind": ["bird", "", "Cat"][v], "name": name}, Pet)
     except (ValueError, TypeError):
         pass
+    return False
+
+
+FALSY = ["", None, 0, False]
+
+
+def ob_pet_falsy_discriminator(v: int, with_extra: bool) -> bool:
+    """
+    pre: 0 <= v <= 3
+    post: _
+    """
+    # a discriminator that is present but falsy is still a value outside the mapping: an error, not a guess
+    doc = {"kind": FALSY[v], "name": "n"}
+    if with_extra:
+        doc["lives"] = 3
+    try:
+        S(doc, Pet)
+    except (ValueError, TypeError):
+        return True
+    return False
+
+
+def tw_pet_falsy_discriminator(v: int, with_extra: bool) -> bool:
+    """
+    pre: 0 <= v <= 3
+    post: _
+    """
+    try:
+        S({"kind": FALSY[v], "name": "n"}, Pet)
+    except (ValueError, TypeError):
+        pass
+    return False
+
+
+def ob_legacy_pet(mode: int, pk: int, name: str, has_extra: bool, n: int) -> bool:
+    """
+    pre: 0 <= mode <= 2 and 0 <= pk <= 1 and len(name) <= 1
+    post: _
+    """
+    # variant schemas named cat_v / Dog2: the mapping leads to the classes CatV / Dog2 in modules cat_v / dog_2
+    if mode == 0:
+        doc = {"kind": KINDS[pk], "name": name}
+        if has_extra:
+            doc[["lives", "barkVolume"][pk]] = n
+        x = S(dict(doc), LegacyPet)
+        return isinstance(x, [CatV, Dog2][pk]) and _norm(_enc(x)) == _norm(doc)
+    doc = {"kind": (["bird", "Cat"] + FALSY)[n % 6] if mode == 1 else KINDS[pk], "name": name}
+    if mode == 2:
+        doc[["lives", "barkVolume"][pk]] = "zz"
+    try:
+        S(doc, LegacyPet)
+    except (ValueError, TypeError):
+        return True
+    return False  # an unmapped / falsy discriminator value, or a malformed mapped variant, was decoded as something
+
+
+def tw_legacy_pet(mode: int, pk: int, name: str, has_extra: bool, n: int) -> bool:
+    """
+    pre: 0 <= mode <= 2 and 0 <= pk <= 1 and len(name) <= 1
+    post: _
+    """
+    S({"kind": KINDS[pk], "name": name}, LegacyPet)
     return False
 
 
@@ -320,6 +382,25 @@ def tw_many_to_one_mapping(k: int, name: str) -> bool:
     post: _
     """
     S({"species": SPECIES[k], "name": name}, Animal)
+    return False
+
+
+def ob_many_to_one_plain_string(k: int, name: str) -> bool:
+    """
+    pre: 0 <= k <= 2 and len(name) <= 2
+    post: _
+    """
+    doc = {"species": SPECIES[k], "name": name}
+    x = S(dict(doc), Animal2)
+    return isinstance(x, [Kit2, Kit2, Pup2][k]) and _norm(_enc(x)) == _norm(doc)
+
+
+def tw_many_to_one_plain_string(k: int, name: str) -> bool:
+    """
+    pre: 0 <= k <= 2 and len(name) <= 2
+    post: _
+    """
+    S({"species": SPECIES[k], "name": name}, Animal2)
     return False
 
 
